@@ -49,6 +49,7 @@ impl<'a, 'b> InterpStack<'a, 'b> {
                             }
                         }
 
+                        self.ctx.note_non_const();
                         Ok(CelValue::from_err(CelError::binding(&name)).into())
                     } else {
                         Ok(val.into())
@@ -463,8 +464,14 @@ impl<'a> Interpreter<'a> {
                                         self.get_type_by_name(&func_name)
                                     {
                                         let arg_values = self.resolve_args(args)?;
+                                        if arg_values.is_empty() {
+                                            // a constructor without input (timestamp()) reads
+                                            // run-time state
+                                            self.note_non_const();
+                                        }
                                         stack.push_val(construct_type(type_name, arg_values));
                                     } else {
+                                        self.note_non_const();
                                         stack.push_val(CelValue::from_err(CelError::runtime(
                                             &format!("{} is not callable", func_name),
                                         )));
@@ -559,6 +566,14 @@ impl<'a> Interpreter<'a> {
             }
         }
         Ok(arg_values)
+    }
+
+    // An unbound name or a read of run-time state was met: when this is the compiler
+    // evaluating a call ahead of time, the result must not be kept as a constant.
+    fn note_non_const(&self) {
+        if let Some(bindings) = self.bindings {
+            bindings.note_non_const();
+        }
     }
 
     fn get_param_by_name(&self, name: &str) -> Option<&'a CelValue> {
